@@ -256,3 +256,29 @@ Proof.
     + intros q Hq. rewrite (C q Hq). apply Nat.eqb_refl.
     + destruct input as [|x t]; [now left|right]. destruct res; [exfalso; apply D; [discriminate|reflexivity]|reflexivity].
 Qed.
+
+(** * The memoised matching used by the correspondence check is [M_hist] *)
+Lemma words_eqb_spec (a b : list bytes) : words_eqb a b = true <-> a = b.
+Proof.
+  unfold words_eqb. revert b; induction a as [|x a IH]; intros [|y b]; cbn; try (split; congruence).
+  rewrite Bool.andb_true_iff, bytes_eqb_spec, IH. split; [intros (-> & ->); reflexivity|intros E; injection E; auto].
+Qed.
+
+Lemma M_memo_correct table :
+  (forall e, In e table -> snd e = M_hist (fst (fst e)) (snd (fst e))) ->
+  forall a b, M_memo table a b = M_hist a b.
+Proof.
+  intros H a b. unfold M_memo.
+  destruct (find _ table) as [e|] eqn:F; [|reflexivity].
+  apply find_some in F. destruct F as (Hin & E). apply Bool.andb_true_iff in E.
+  destruct E as (E1 & E2). apply words_eqb_spec in E1, E2. rewrite (H e Hin). now subst.
+Qed.
+
+Lemma memo_table_ok bw ows :
+  forall e, In e (map (fun om => (bw, fst om, snd om)) (combine ows (map (M_hist bw) ows))) ->
+            snd e = M_hist (fst (fst e)) (snd (fst e)).
+Proof.
+  intros e He. apply in_map_iff in He. destruct He as ((o & m) & <- & Hin). cbn [fst snd].
+  clear - Hin. revert Hin. induction ows as [|x t IH]; cbn; [tauto|].
+  intros [H|H]; [injection H as <- <-; reflexivity|now apply IH].
+Qed.
